@@ -316,7 +316,8 @@ func (w *fingerprintWriter) writeValue(v ast.Value) {
 		w.writeString(n.Value)
 	case *ast.StringValue:
 		w.writeByte('s')
-		w.writeString(n.Value)
+		// quoted, so that the contents cannot imitate the separators used here
+		w.writeString(strconv.Quote(n.Value))
 	case *ast.BooleanValue:
 		w.writeByte('b')
 		if n.Value {
